@@ -203,6 +203,7 @@ def main(root, argv):
     if not argv:
         print(__doc__); return 2
     pid = argv[0]
+    global CUR_TIER
     tier = os.environ.get("VERIF_TIER", "quick")
     replay = None
     i = 1
@@ -211,6 +212,7 @@ def main(root, argv):
         elif argv[i] == "--replay": replay = argv[i+1]; i += 2
         else: i += 1
     seed = int(os.environ.get("VERIF_SEED", "1") or 1)
+    CUR_TIER = tier
     if pid in EXTRA:
         return EXTRA[pid](pid, tier, seed, replay)
     if pid not in PROPS:
@@ -574,6 +576,7 @@ def run_miri_drops():
 
 EXTRA["C16"] = own_property
 
+CUR_TIER = "quick"
 def lean_obligations(pid, module, evidence, violations):
     """builds the theorem module + driver, audits axioms. Returns (ok, n_obligations, n_discharged)."""
     thms = registered_theorems(module)
@@ -582,6 +585,14 @@ def lean_obligations(pid, module, evidence, violations):
     bad_src = audit_sources()
     discharged = 0
     axmap = {}
+    if ok and CUR_TIER == "thorough":
+        # independent re-check of the compiled theorem module by leanchecker (replays every declaration
+        # of the .olean in a fresh kernel)
+        t0 = time.time()
+        rc, lout = sh(["lake", "env", "leanchecker", f"HLV.Props.{module}"], cwd=os.path.join(ROOT, "lean"), timeout=1800)
+        evidence["leanchecker"] = dict(rc=rc, wall_s=round(time.time() - t0, 1))
+        if rc != 0:
+            violations.append(dict(kind="obligation", what=f"leanchecker rejects HLV.Props.{module}", detail=lout[-2000:]))
     if ok:
         ok2, axmap, axout = print_axioms(module, thms)
         for n, _ in thms:
@@ -757,6 +768,12 @@ def t1_property(pid, tier, seed, replay):
             direct.append(dict(case="extras: payload_bomb  (three members; the first two raw unlocks panic, the second with a payload whose destructor panics)",
                                impl=str(pb), model="third_member_released=true", source="extras",
                                message="a scoped call on a collection unwound and gave the key back while a member whose unlock does not panic is still locked (the unlock loop stopped at a panicking payload destructor)"))
+        pr = xl.get("payload_bomb_read")
+        if pr is None or pr.get("third_member_released") != "true":
+            n_direct_seen += 1
+            direct.append(dict(case="extras: payload_bomb_read  (scoped_read on three RwLocks; the first two raw unlock_shared calls panic, the second with a payload whose destructor panics)",
+                               impl=str(pr), model="third_member_released=true", source="extras",
+                               message="a scoped read on a collection unwound and gave the key back while a member whose unlock does not panic is still read-locked (the unlock loop stopped at a panicking payload destructor)"))
         if pid == "C12":
             # what the statement-level protocol model (Model/Kill.lean) says these schedules end in
             try:
@@ -765,7 +782,7 @@ def t1_property(pid, tier, seed, replay):
             except Exception as e:
                 ml = {}
             evidence["kill_model"] = ml
-            if set(ml) != {"kill_while_waiting", "kill_during_try"}:
+            if set(ml) != {"kill_while_waiting", "kill_during_try", "kill_during_try_read"}:
                 violations.append(dict(kind="correspondence", what=f"protocol model did not answer the kill scenarios: {ml}"))
             kw = xl.get("kill_while_waiting"); want = ml.get("kill_while_waiting", {}).get("waiter_got", "refused")
             if kw is None or kw.get("waiter_got") != want or kw.get("waiter_was_waiting") != "true":
@@ -779,6 +796,18 @@ def t1_property(pid, tier, seed, replay):
                 direct.append(dict(case="extras: kill_during_try  (A holds; B's try_lock is pre-empted inside the raw try; A's raw unlock releases and then panics, killing the lock; B resumes)",
                                    impl=str(kt), model=f"in_flight_try_got_guard={want};fresh_try_refused=true", source="extras",
                                    message="a try_lock in flight when the lock was killed by a panicking raw operation returns a usable guard on the killed lock (the kill flag is only tested before the raw try)"))
+            kx = xl.get("kill_during_try_write"); want = ml.get("kill_during_try", {}).get("in_flight_try_got_guard", "false")
+            if kx is None or kx.get("in_flight_try_got_guard") != want or kx.get("try_was_in_flight") != "true" or kx.get("fresh_try_refused") != "true":
+                n_direct_seen += 1
+                direct.append(dict(case="extras: kill_during_try_write  (RwLock: A holds exclusively; B's try_write is pre-empted inside the raw try; A's raw unlock releases and then panics; B resumes)",
+                                   impl=str(kx), model=f"in_flight_try_got_guard={want};fresh_try_refused=true", source="extras",
+                                   message="a try_write in flight when the lock was killed by a panicking raw operation reports success on the killed lock"))
+            kr = xl.get("kill_during_try_read"); want = ml.get("kill_during_try_read", {}).get("in_flight_try_got_guard", "false")
+            if kr is None or kr.get("in_flight_try_got_guard") != want or kr.get("try_was_in_flight") != "true" or kr.get("fresh_try_refused") != "true":
+                n_direct_seen += 1
+                direct.append(dict(case="extras: kill_during_try_read  (A holds exclusively; B's try_read is pre-empted inside the raw try; A's raw unlock releases and then panics, killing the lock; B resumes)",
+                                   impl=str(kr), model=f"in_flight_try_got_guard={want};fresh_try_refused=true", source="extras",
+                                   message="a try_read in flight when the lock was killed by a panicking raw operation reports success on the killed lock"))
 
     # C07: the zero-sized corner (recorded finding D9), reproduced against the real crate
     if pid == "C07":
